@@ -99,3 +99,60 @@ def parse_model(table):
             [r[cols.index(c)] for c in spectrum] for r in table["rows"]
         ],
     }
+
+
+# ------------------------------------------------------- C03 competition / rollup
+def table_records(table, scores):
+    """Input rows as dicts keyed the way result files name things."""
+    cols = table["columns"]
+    m = table["meta"]
+    idx = {c: cols.index(c) for c in cols}
+    out = []
+    for ri, r in enumerate(table["rows"]):
+        lab = r[idx[m["label"]]]
+        rec = {
+            "row": ri,
+            "PSMId": str(r[idx[m["specid"]]]),
+            "target": bool(lab is True or (not isinstance(lab, bool) and int(lab) == 1)),
+            "spectrum": tuple(r[idx[c]] for c in m["spectrum"]),
+            "peptide": r[idx[m["peptide"]]],
+            "proteinIds": r[idx[m["proteins"]]],
+            "score": float(scores[ri]),
+        }
+        for lc in m["level_cols"]:
+            rec[lc] = r[idx[lc]]
+        out.append(rec)
+    return out
+
+
+def level_names(level_cols):
+    """[(level name, key function name)] in mokapot's level order."""
+    out = [("peptides", "peptide")]
+    for lc in ("ModifiedPeptide", "Precursor", "PeptideGroup"):
+        if lc in level_cols:
+            out.append((lc.lower() + "s", lc))
+    return out
+
+
+def strict_competition(records, dedup=True, rollup=True, level_cols=()):
+    """Deterministic expectation (no exact score ties inside any group).
+    Returns {level: [records in non-increasing score order]}."""
+    if dedup:
+        best = {}
+        for r in records:
+            k = r["spectrum"]
+            if k not in best or r["score"] > best[k]["score"]:
+                best[k] = r
+        retained = list(best.values())
+    else:
+        retained = list(records)
+    out = {"psms": sorted(retained, key=lambda r: -r["score"])}
+    if rollup:
+        for lname, key in level_names(level_cols):
+            best = {}
+            for r in retained:
+                k = r[key]
+                if k not in best or r["score"] > best[k]["score"]:
+                    best[k] = r
+            out[lname] = sorted(best.values(), key=lambda r: -r["score"])
+    return out
